@@ -47,7 +47,7 @@ RULES = [
     (r"RangeExt>::", r"arith", r".*", ("benign", USIZE1 + " (line = u32::MAX from the client)")),
     (r"nested_render$", r"unwrap", r".*", ("guarded", "callers drop_first() only paths with more than one id (handle_document_symbols filters ids().len() > 1), so ids() is non-empty")),
     (r"to_nested_symbol$|path_to_symbol$", r"arith", r".*", ("benign", USIZE1)),
-    (r"BasePath::(key_to_url|relative_to_full_path|name_to_url)$", r"unwrap|expect", r".*", ("guarded", "the base is a fixed hierarchical file:// url built at startup; Url::join / parse on such a base only fails on authority (host/port) syntax, which needs a leading `//` that RelativePath normalisation and the fixed `file://…/` prefix rule out (C14's domain, not note content)")),
+    (r"BasePath::(key_to_url|relative_to_full_path|name_to_url|file_url)$", r"unwrap|expect", r".*", ("guarded", "the base is a fixed hierarchical file:// url built at startup; Url::join / parse on such a base only fails on authority (host/port) syntax, which needs a leading `//` that RelativePath normalisation and the fixed `file://…/` prefix rule out (C14's domain, not note content)")),
     (r"Server::handle_did_change_text_document$", r"unwrap", r"slice::first", ("benign", "an empty contentChanges array carries no edit (FULL sync sends exactly one change); nothing is lost when it is dropped")),
     (r"Router::on_notification$", r"unwrap", r"Deserialize::deserialize", ("benign", "malformed notification params: not a well-typed edit notification")),
     (r"Server::handle_plus_completions$", r"unwrap", r"serde_json::to_value", ("benign", "serialising a struct of three Strings cannot fail")),
